@@ -1,10 +1,10 @@
 SPECIFICATION Spec
 CONSTANTS
-  NCH = 3
-  NBS = 3
+  NCH = 2
+  NBS = 2
   Menu <- MenuThorough
   Follow <- FollowThorough
-  ReadData <- ReadDataThorough
+  ReadData <- ReadDataQuick
   MaxReq = 3
   Bugs <- BugsNone
 INVARIANT MonitorOK
